@@ -5,7 +5,12 @@ pub mod c10;
 pub mod c11;
 pub mod c12;
 pub mod c13;
+pub mod c14;
+pub mod c15;
+pub mod c16;
+pub mod c17;
 pub mod c18;
+pub mod c20;
 pub mod common;
 pub mod iff;
 
@@ -30,7 +35,12 @@ pub fn get(id: &str) -> Option<Box<dyn Check>> {
         "C11" => Some(Box::new(c11::C11)),
         "C12" => Some(Box::new(c12::C12)),
         "C13" => Some(Box::new(c13::C13)),
+        "C14" => Some(Box::new(c14::C14)),
+        "C15" => Some(Box::new(c15::C15)),
+        "C16" => Some(Box::new(c16::C16)),
+        "C17" => Some(Box::new(c17::C17)),
         "C18" => Some(Box::new(c18::C18)),
+        "C20" => Some(Box::new(c20::C20)),
         _ => None,
     }
 }
